@@ -343,6 +343,16 @@ fn big_lookup_event(rules: &Rules, rng: &mut Rng, ev: &mut Vec<Value>, rep: &mut
     };
     let mut mism = 0u64;
     let mut probed = 0u64;
+    if std::env::var("FV_DEBUG").is_ok() {
+        for s in &subs {
+            if let RPairPos::Format1(t) = s {
+                let cov = t.coverage().unwrap();
+                let fmt = match &cov { RCoverage::Format1(_) => 1, RCoverage::Format2(_) => 2 };
+                let glyphs: Vec<u32> = cov.iter().map(|g| g.to_u32()).collect();
+                eprintln!("subtable: coverage format {fmt}, {} covered ({:?}..{:?}), {} pair sets", glyphs.len(), glyphs.first(), glyphs.last(), t.pair_set_count());
+            }
+        }
+    }
     let mut firsts: BTreeMap<u16, Vec<u16>> = BTreeMap::new();
     for p in &rules.pairs {
         firsts.entry(p.0).or_default().push(p.1);
@@ -706,6 +716,20 @@ fn random_small_rules(rng: &mut Rng) -> Rules {
     let c1s: Vec<Vec<u16>> = vec![vec![2, 3], vec![4], vec![10, 11, 12]];
     let c2s: Vec<Vec<u16>> = vec![vec![3, 5], vec![6, 7, 20], vec![2]];
     let mut classes = vec![];
+    if rng.chance(1, 3) {
+        // overlapping classes, rules in priority order: the builder has to break subtables, later rules must not
+        // get in front of earlier ones (Layout!Decided says which pairs the rules decide)
+        let o1s: Vec<Vec<u16>> = vec![vec![2, 3], vec![3], vec![2, 3, 4], vec![4], vec![10, 11, 12], vec![10], vec![11, 12]];
+        let o2s: Vec<Vec<u16>> = vec![vec![3, 5], vec![5], vec![6, 7, 20], vec![2], vec![2, 6]];
+        let mut seen = BTreeSet::new();
+        for _ in 0..(2 + rng.below(5)) {
+            let (i, j) = (rng.below(o1s.len() as u64) as usize, rng.below(o2s.len() as u64) as usize);
+            if seen.insert((i, j)) {
+                classes.push((o1s[i].clone(), o2s[j].clone(), *rng.pick(&vals[..8]), ZERO));
+            }
+        }
+        return Rules { pairs, classes };
+    }
     for (i, a) in c1s.iter().enumerate() {
         for (j, b) in c2s.iter().enumerate() {
             if rng.chance(1, 3) {
@@ -760,7 +784,11 @@ pub fn main(args: &[String]) {
                 for g1 in 0..n_first {
                     for k in 0..per {
                         let g2 = 5 + g1 % 7 + k * 2;
-                        pairs.push((g1 + 3, g2, v3((g1 as i16 % 90) + 1, 0, if b % 4 == 2 && k % 40 == 7 { (g1 % 100) as i16 + 1 } else { 0 }), if k % 50 == 0 && b % 2 == 1 { v3(0, 3, 0) } else { ZERO }));
+                        // odd variants: an isolated first glyph, a contiguous run and then isolated ids, so that the
+                        // coverage is in range format with single-glyph ranges at index 0 and where later splits fall
+                        let run = n_first / 4 * 3;
+                        let first = if b % 2 == 1 && g1 >= run { 3 + run + (g1 - run) * 2 } else if b % 2 == 1 && g1 == 0 { 1 } else { g1 + 3 };
+                        pairs.push((first, g2, v3((g1 as i16 % 90) + 1, 0, if b % 4 == 2 && k % 40 == 7 { (g1 % 100) as i16 + 1 } else { 0 }), if k % 50 == 0 && b % 2 == 1 { v3(0, 3, 0) } else { ZERO }));
                     }
                 }
                 big_lookup_event(&Rules { pairs, classes: vec![] }, &mut rng, &mut ev, &mut rep);
